@@ -139,6 +139,34 @@ example : actionFileCheck (some .brotli) (some 4) (some 0) = .err := by decide
 example : actionFileCheck (some .gzip) none (some 512) = .err := by decide
 example : (drain 2 6 [[7], [], [8, 9, 10], [11]]).1 = [7, 8, 9, 10, 11] := by decide
 
+/-- **Source errors are not swallowed.**  If the backend body fails (its `Read` returns a non-EOF error
+    instead of io.EOF after the data), no `Read` of the filter ever returns io.EOF — the reader cannot
+    mistake the truncated stream for a complete one — and the compressor is never closed; this holds
+    along every read sequence (the invariant and `closed = false` are preserved). -/
+theorem C54_error_not_swallowed (cp : Comp S) (hp : cp.FlushProgress) (body : Bytes) (fs : Nat) (hfs : 0 < fs)
+    (st : FSt) (p : Nat) (hi : Inv cp body st) (hopen : st.closed = false) :
+    (freadX cp fs true st p).1.2 ≠ RRes.eof ∧ (freadX cp fs true st p).2.closed = false ∧
+    Inv cp body (freadX cp fs true st p).2 :=
+  freadX_failing cp hp body fs hfs st p hi hopen
+
+/-- Reload of the rule table: the action in force is the one of the LAST accepted file; a rejected file
+    changes nothing. -/
+theorem C54_reload_last_accepted (first second : Option (Load × Cmd × Nat)) :
+    (∀ c f, second = some (.ok, c, f) → actionInForce first second = some (c, f)) ∧
+    ((∀ c f, second ≠ some (.ok, c, f)) → actionInForce first second = actionInForce none first) := by
+  constructor
+  · intro c f h; subst h; rfl
+  · intro h
+    unfold actionInForce
+    split
+    · rename_i c f; exact absurd rfl (h c f)
+    · cases first with
+      | none => rfl
+      | some x => rfl
+
+example : (freadX toy 4 true { src := [[1, 2]] } 8).1.2 = RRes.err := by decide
+example : (freadX toy 2 true { src := [[1, 2]] } 8).1.2 = RRes.ok := by decide
+
 /-- **C54_headers.**  If the handler installs a compression filter then it announces that coding in
     Content-Encoding, removes Content-Length, the response was not already encoded, and the request's
     Accept-Encoding contains the coding as a `HasToken` token; otherwise both headers are untouched. -/
